@@ -223,6 +223,13 @@ func VerifHarness_C06_volume_names() {
 		{"s.vol0+1.par2", "s.vol1+1.par2", "s.extra.par2"},
 	}[rt.Choice("names", 4)]
 	s := c06Scenario(files, []int{0, 1, 2}, names, false)
+	if rt.Bool("copy") {
+		// the same recovery block (exponent 0) once more in a differently named file,
+		// as left behind by copying a volume or by overlapping par2 runs
+		setID, pk, all := c06Packets(files)
+		body := append(append([]refPkt(nil), pk...), refPkt{"PAR 2.0\x00RecvSlic", append(put32(0), c06Block(all, 0)...)})
+		s.fs.put(scnDir+"/s.copy.par2", refWrite(setID, body, -1, 0))
+	}
 	if rt.Bool("strays") {
 		// files that match <base>.*.par2 but hold nothing of this set, sorting before,
 		// between and after the set's own volumes: another set's packets, and an empty file
